@@ -60,6 +60,7 @@ def main(argv=None):
     g.add_argument('seed', type=int)
     g.add_argument('--tier', default='quick')
     g.add_argument('--run', action='store_true')
+    g.add_argument('--index', type=int, default=1)
     a = ap.parse_args(argv)
 
     try:
@@ -76,7 +77,8 @@ def main(argv=None):
                 a.props.split(','), a.seeds, a.tier)
         if a.cmd == 'case':
             mod = kernel.prop_module(a.prop.upper())
-            case = mod.gen_case(a.seed, a.tier)
+            case = mod.gen_case(a.seed, a.tier, a.index) if getattr(
+                mod, 'USES_INDEX', False) else mod.gen_case(a.seed, a.tier)
             print(json.dumps(case, indent=1, default=str))
             if a.run:
                 res = kernel.execute(mod, case)
